@@ -18,7 +18,7 @@ ID = "C06"
 LEVEL = "exploration"
 BUDGET = {
     "quick": {"runs": 2600, "wall": 300, "chunk": 20},
-    "thorough": {"runs": 25000, "wall": 3000, "chunk": 100},
+    "thorough": {"runs": 100000, "wall": 3400, "chunk": 100},
 }
 FAMS = ["Constant", "Sum", "Mean", "UPGrad", "TrimmedMean"]
 RULE = (
